@@ -112,9 +112,28 @@ type faultReader struct {
 	data  []byte
 	pos   int
 	k     int
-	style int // 0: (0,err) at the offset; 1: last good bytes together with err
-	chunk int // 0: as much as asked; 1: one byte per call
+	style int // 0: (0,err) at the offset; 1: last good bytes together with err; 2: (0,err) once at the offset, the data continues afterwards (transient failure)
+	chunk int // 0: as much as asked; 1: one byte per call; 2: seven bytes per call; 3: as much as asked, every other call answers (0, nil)
 	calls int
+	fired bool
+}
+
+// richFaultReader offers io.ByteReader and io.RuneReader on top of the same schedule (bytes.Reader, bufio.Reader and
+// strings.Reader do): a ReadFile that probes its reader for them takes a different path.
+type richFaultReader struct{ *faultReader }
+
+func (r richFaultReader) ReadByte() (byte, error) {
+	var p [1]byte
+	for i := 0; i < 3; i++ {
+		n, err := r.faultReader.Read(p[:])
+		if n == 1 {
+			return p[0], nil // an error delivered with the byte comes again on the next call (or never, for a transient one)
+		}
+		if err != nil {
+			return 0, err
+		}
+	}
+	return 0, io.ErrNoProgress
 }
 
 var errRead = errors.New("injected read failure")
@@ -127,8 +146,19 @@ func (f *faultReader) Read(p []byte) (int, error) {
 	if len(p) == 0 {
 		return 0, nil
 	}
-	avail := f.k - f.pos
+	if f.chunk == 3 && f.calls%2 == 0 {
+		return 0, nil
+	}
+	limit := f.k
+	if f.style == 2 && f.fired {
+		limit = len(f.data)
+	}
+	avail := limit - f.pos
 	if avail <= 0 {
+		if f.style == 2 && f.fired {
+			return 0, io.EOF
+		}
+		f.fired = true
 		return 0, errRead
 	}
 	n := avail
@@ -138,9 +168,13 @@ func (f *faultReader) Read(p []byte) (int, error) {
 	if f.chunk == 1 {
 		n = 1
 	}
+	if f.chunk == 2 && n > 7 {
+		n = 7
+	}
 	copy(p, f.data[f.pos:f.pos+n])
 	f.pos += n
 	if f.style == 1 && f.pos >= f.k {
+		f.fired = true
 		return n, errRead
 	}
 	return n, nil
@@ -245,8 +279,13 @@ func main() {
 		json.Unmarshal(b, &v)
 		text, _ := v.Case["input"].(string)
 		if k, ok := v.Case["fail_at"].(float64); ok {
-			fr := &faultReader{data: []byte(text), k: int(k), style: int(v.Case["style"].(float64)), chunk: int(v.Case["chunk"].(float64))}
-			r := readFile(fr)
+			chunk := int(v.Case["chunk"].(float64))
+			fr := &faultReader{data: []byte(text), k: int(k), style: int(v.Case["style"].(float64)), chunk: chunk % 4}
+			var src io.Reader = fr
+			if chunk == 4 {
+				src = richFaultReader{fr}
+			}
+			r := readFile(src)
 			fmt.Printf("input %q failing at byte %d: ok=%v err=%q panic=%q\n", text, int(k), r.ok, r.err, r.panic)
 			if r.ok || r.panic != "" {
 				fmt.Printf("VIOLATION property=C10 replay=%s\n", *replay)
@@ -451,15 +490,19 @@ func main() {
 			if pre := readFile(strings.NewReader(t.text[:k])); pre.ok {
 				boundary = "at-definition-boundary"
 			}
-			for style := 0; style < 2; style++ {
-				for chunk := 0; chunk < 2; chunk++ {
+			for style := 0; style < 3; style++ {
+				for chunk := 0; chunk < 5; chunk++ {
 					if k == len(t.text) && style == 1 {
 						continue // the error arrives together with the last byte: still a failed read
 					}
-					fr := &faultReader{data: []byte(t.text), k: k, style: style, chunk: chunk}
+					fr := &faultReader{data: []byte(t.text), k: k, style: style, chunk: chunk % 4}
+					var src io.Reader = fr
+					if chunk == 4 {
+						src = richFaultReader{fr} // full reads through a reader that also offers ReadByte
+					}
 					atomic.AddInt64(&states, 1)
 					atomic.AddInt64(&faults, 1)
-					r := guarded(t.text, func() result { return readFile(fr) })
+					r := guarded(t.text, func() result { return readFile(src) })
 					atomic.AddInt64(&trans, 1)
 					c := map[string]any{"input": t.text, "fail_at": k, "style": style, "chunk": chunk, "definitions": t.label}
 					if r.panic != "" {
@@ -476,7 +519,7 @@ func main() {
 
 	run.Sample(map[string]any{"lexeme_input": jobs[40].text})
 	run.Sample(map[string]any{"byte_input": jobs[nLex+100].text, "context": jobs[nLex+100].ctx})
-	run.Sample(map[string]any{"read_fault": "every offset 0..len of " + fmt.Sprint(len(texts)) + " valid texts × {(0,err),(n,err)} × {full reads, 1-byte reads}"})
+	run.Sample(map[string]any{"read_fault": "every offset 0..len of " + fmt.Sprint(len(texts)) + " valid texts × {(0,err), (n,err), transient (0,err) after which the data continues} × {full reads, 1-byte reads, 7-byte reads, reads interleaved with (0,nil), full reads through a reader that also offers ReadByte}"})
 	run.Coverage["states"] = states
 	run.Coverage["transitions"] = trans
 	run.Coverage["traces_validated_against_impl"] = trans
